@@ -68,7 +68,7 @@ var c10Allows = []c10Allow{
 	{"error-text", "(SyntaxError).Error", "upstream", `ret ("asn1: syntax error: " + RCV.Msg)*`, "diagnostic", "the fork prefixes the field name"},
 	{"error-text", "(SyntaxError).Error", "fork", `ret (("asn1: syntax error: " + L1) + RCV.Msg)*`, "diagnostic", "the fork prefixes the field name"},
 	{"oid-string", "(ObjectIdentifier).String", "upstream", `call *.WriteByte(46)*`, "equivalent", "strings.Builder formatting (go1.13) vs string concatenation; same text"},
-	{"oid-string", "(ObjectIdentifier).String", "upstream", `call *.Write(strconv.AppendInt(*`, "equivalent", "same"},
+	{"oid-string", "(ObjectIdentifier).String", "upstream", `call *.WriteString(strconv.FormatInt(*`, "equivalent", "same (upstream's Write(strconv.AppendInt(buf, …)) in the engine's one form of decimal formatting)"},
 	{"oid-string", "(ObjectIdentifier).String", "upstream", `ret *.String()*`, "equivalent", "same"},
 	{"oid-string", "(ObjectIdentifier).String", "fork", `ret ·  WHEN  `, "equivalent", "same"},
 	{"four-digits", "appendFourDigits", "upstream", `ret append(P0, byte(*`, "equivalent", "unrolled digit formatting (go1.20) vs loop; marshal only"},
@@ -97,7 +97,8 @@ func c10R3(r *Run, li *c10LaxInfo) {
 			lax[o] = true
 		}
 	}
-	res := ForkDiff(fork, up, map[string]bool{"asn1.go": true, "common.go": true, "marshal.go": true}, lax)
+	// both sides are collected from the whole package, whatever file a declaration lives in
+	res := ForkDiff(fork, up, nil, lax)
 	r.Pass("upstream", "-", "compared against "+res.UpstreamDir)
 	r.Floor("same-named functions compared", res.Functions, 70)
 	for _, k := range res.SigMismatch {
@@ -119,9 +120,20 @@ func c10R3(r *Run, li *c10LaxInfo) {
 		}
 		for _, k := range list {
 			why, ok := c10FuncsOnly[side+":"+k]
+			if !ok && side == "fork" && res.NotOutside[k] != "" {
+				why = "it is not in the drift table and does not lie outside the decoder: it " + res.NotOutside[k]
+			}
 			r.Check("only-"+side+":"+k, ok, "-", "function exists on the "+side+" side only: "+why)
 		}
 	}
+	for _, k := range res.FuncsOutside {
+		r.Pass("outside:"+k, "-", "function exists on the fork side only and lies outside the decoder: nothing but such functions refers to it (reachable from nothing compared), its receiver type — if any — occurs nowhere in decoder code, and it refers to no package-level function or variable of the fork other than such functions and write-only variables (it cannot call into the decoder, write what the decoder reads, or read anything but write-only variables)")
+	}
+	// package-level state: written by the declarations only, or write-only for the decoder
+	for _, v := range res.PkgVars {
+		r.Check("pkgvar:"+v.Name, v.OK, r.P.Pos(v.Pos), v.Detail)
+	}
+	r.Floor("package-level variables of the fork classified", len(res.PkgVars), 10)
 	for _, k := range res.FuncsUnreferenced {
 		r.Pass("unreferenced:"+k, "-", "unexported function on the fork side only that nothing refers to (dead code, not part of the strict residual)")
 	}
@@ -228,6 +240,10 @@ func c10R3(r *Run, li *c10LaxInfo) {
 	c10TypeVars(r, res.Renamed)
 	c10R3Items(r, res, up.Fset)
 	if os.Getenv("CTVERIF_C10_DEBUG") != "" {
+		fmt.Println("outside:", res.FuncsOutside, "not outside:", res.NotOutside, "sink statements:", res.SinkStmts)
+		for _, v := range res.PkgVars {
+			fmt.Printf("PKGVAR %s ok=%v sink=%v\n", v.Name, v.OK, v.Sink)
+		}
 		for _, s := range res.OnlyUp {
 			fmt.Printf("UP   %v %s: %s\n", s.match, s.Fn, s.Text)
 		}
@@ -347,7 +363,7 @@ var c10ItemAllows = []c10ItemAllow{
 	{"error-text", "(SyntaxError).Error", "fork", `cond ("" != RCV.Field)`, 1, "diagnostic", "same"},
 	{"error-text", "(SyntaxError).Error", "fork", `asgn L1 = (RCV.Field + ": ")`, 1, "diagnostic", "same"},
 	{"oid-string", "(ObjectIdentifier).String", "fork", `asgn R0 = (R0 + ".")`, 1, "equivalent", "string concatenation where upstream uses strings.Builder (its WriteByte/Write calls are allowed as sites)"},
-	{"oid-string", "(ObjectIdentifier).String", "fork", `asgn R0 = (R0 + strconv.Itoa(L1))`, 1, "equivalent", "same"},
+	{"oid-string", "(ObjectIdentifier).String", "fork", `asgn R0 = (R0 + strconv.FormatInt(int64(L1), 10))`, 1, "equivalent", "same (strconv.Itoa in the engine's one form of decimal formatting)"},
 	{"four-digits", "appendFourDigits", "fork", `cond range(L1)`, 1, "equivalent", "digit loop where upstream is unrolled (go1.20); marshal only"},
 	{"four-digits", "appendFourDigits", "fork", `asgn L1[(3 - L2)] = (48 + byte((P1 % 10)))`, 1, "equivalent", "same"},
 	{"four-digits", "appendFourDigits", "fork", `asgn P1 = (P1 / 10)`, 1, "equivalent", "same"},
